@@ -241,18 +241,40 @@ def harvest(ctx, rep, f_de, f_sh):
             left, right = la, ra
         obj = L.Objective(ctx.rng.choice(["onemax", "minx", "neg", "weighted"]))   # sum x rewards leaving the box
         init = np.array([[la[j] + (ra[j] - la[j]) * ctx.rng.randint(0, 8) / 8 for j in range(dim)] for _ in range(pop)])
+        # where the initial population comes from: a grid (above), the library's own draw (init_population=None), or the public
+        # sampler float_population called by the user with the same borders — before the optimizer is built, or in between
+        # building and fitting it (an unrelated call must not disturb an optimizer that already exists)
+        init_mode = ctx.rng.choice(["grid", "grid", "default", "sampler", "sampler-after-build"])
+        push_up = init_mode.startswith("sampler") and ctx.rng.random() < 0.7
+        if push_up:
+            obj = L.Objective("onemax")
         F, CR = ctx.rng.choice([0.5, 1.0, 2.0]), ctx.rng.choice([0.0, 0.5, 1.0])
         records, pops, geno_batches = [], [], []
         use_g2p = ctx.rng.random() < 0.4
         elitism, minimization = ctx.rng.random() < 0.7, ctx.rng.random() < 0.4
+        if push_up:
+            minimization = False
+        Cls = {"DE": DifferentialEvolution, "jDE": jDE, "SHADE": SHADE}[kind]
+
+        def user_sample():
+            import random as _random
+            np.random.seed(seed % (1 << 31))
+            _random.seed(seed)
+            P0 = Cls.float_population(pop, left, right, dim)
+            if np.asarray(P0).shape != (pop, dim) or any(not in_box(x, la, ra) for x in P0):
+                rep.problem("population", f"{kind}.float_population: a sampled individual lies outside the box", dict(kind=kind, seed=seed, left=la.tolist(), right=ra.tolist()),
+                            "sampler-outside-box", True, np.asarray(P0).tolist(), None, "C07_run_in_box")
+            return np.asarray(P0, dtype=np.float64)
 
         def g2p(P):
             # same shape, different values: a phenotype written back into the genotype population leaves the box
             geno_batches.append(L.snap(P))
             return np.asarray(P, dtype=np.float64) * 1000.0 + 7.0
         with L.log_mode():
+            if init_mode == "sampler":
+                init = user_sample()
             common = dict(iters=ctx.pick(5, 8), pop_size=pop, left_border=left, right_border=right, num_variables=dim,
-                          init_population=init.copy(), random_state=seed, minimization=minimization, elitism=elitism,
+                          init_population=None if init_mode == "default" else init.copy(), random_state=seed, minimization=minimization, elitism=elitism,
                           genotype_to_phenotype=g2p if use_g2p else None)
             if kind == "DE":
                 opt = DifferentialEvolution(obj, mutation=strat, F=F, CR=CR, **common)
@@ -273,13 +295,17 @@ def harvest(ctx, rep, f_de, f_sh):
                 return out
             opt._get_new_individ_g = w
             opt._on_generation = lambda o: pops.append(L.snap(o._population_g_i))
+            if init_mode == "sampler-after-build":
+                user_sample()
+                user_sample()
             opt.fit()
             pops.append(L.snap(opt._population_g_i))
         rep.traces += 1
         rep.hist("harvest_kind", kind + (":" + strat if strat else ""))
         rep.hist("harvest_g2p/elitism/min", (use_g2p, elitism, minimization))
+        rep.hist("harvest_init", init_mode)
         cfg = dict(kind=kind, strategy=strat, seed=seed, dim=dim, pop=pop, left=la.tolist(), right=ra.tolist(), F=F, CR=CR, objective=obj.kind,
-                   g2p=use_g2p, elitism=elitism, minimization=minimization)
+                   g2p=use_g2p, elitism=elitism, minimization=minimization, init_mode=init_mode)
         # every candidate handed to the objective (its genotype when a genotype_to_phenotype is configured), every population member
         for X in (geno_batches if use_g2p else [b[0] for b in obj.batches]):
             for x in X:
